@@ -271,7 +271,19 @@ U13 = universe("U13", 4, [
 ], base=["(h (p 1 2) (v 3))", "(w 3 (p 1 2))", "(h (v 3) (p 1 2))", "(h (p 1 2) (p 3 2))"],
    note="non-injective slot maps in e-matching")
 
-ALL = {"U13": U13, "U12": U12, "U11": U11, "U10": U10, "U9": U9, "U8": U8, "U7": U7, "U1": U1, "U2": U2, "U3": U3, "U4": U4, "U5": U5, "U6": U6}
+# U14 "own slot": a node with a child AND a direct slot that no child mentions (w(p(1,2); 3), wb) whose child loses a slot:
+# the redundancy travels upwards through the node, which must keep its own slot (seeded C01j: the upward shrink kept only
+# the slots the CHILDREN still mention).  Both ways: the parent exists before the child shrinks / is added afterwards while
+# the surviving child class still has a redundant syntactic parameter (p(1,2) = f(1,3)).
+U14 = universe("U14", 4, [
+    (P12, V1),
+    (P12, "(f 1 3)"),
+    ("(w 3 (p 1 2))", "(w 3 (v 1))"),
+    ("(g (w 3 (p 1 2)))", "(w 3 (f 1 2))"),
+], base=["(w 3 (p 1 2))", "(wb 3 2 (p 1 2))", "(g (w 3 (p 1 2)))", "(w 1 (p 1 2))"],
+   note="a direct slot of a parent that no child mentions, child loses a slot")
+
+ALL = {"U14": U14, "U13": U13, "U12": U12, "U11": U11, "U10": U10, "U9": U9, "U8": U8, "U7": U7, "U1": U1, "U2": U2, "U3": U3, "U4": U4, "U5": U5, "U6": U6}
 
 if __name__ == "__main__":
     out = os.path.dirname(os.path.abspath(__file__))
